@@ -338,27 +338,25 @@ func (rr *repRun) diskFn(c simrt.DiskCall) simrt.DiskVerdict {
 }
 
 type repRun struct {
-	t          *testing.T
-	s          *Script
-	res        *Result
-	w          *simrt.World
-	dir        string
-	srv        *replica.Server
-	m          *repModel
-	gate       chan struct{}
-	lag        bool
-	shape      []string
-	step       int
-	router     http.Handler
-	victim     bool   // crashsim victim mode: run the pre-history, then victimOp
-	victimOp   func() // never returns
-	exited     bool   // the replica process called exit
-	punchEver  bool   // reclamation has been enabled at some point of this run
-	punchFree  time.Duration
-	punchSlept bool
-	openPause  int32 // copen: number of openers that still pause at the preload fault point
-	diskMu     sync.Mutex
-	diskArm    *diskArm // one-shot data-file fault (ops wf / rf)
+	t         *testing.T
+	s         *Script
+	res       *Result
+	w         *simrt.World
+	dir       string
+	srv       *replica.Server
+	m         *repModel
+	gate      chan struct{}
+	lag       bool
+	shape     []string
+	step      int
+	router    http.Handler
+	victim    bool   // crashsim victim mode: run the pre-history, then victimOp
+	victimOp  func() // never returns
+	exited    bool   // the replica process called exit
+	punchEver bool   // reclamation has been enabled at some point of this run
+	openPause int32  // copen: number of openers that still pause at the preload fault point
+	diskMu    sync.Mutex
+	diskArm   *diskArm // one-shot data-file fault (ops wf / rf)
 	// bookkeeping for non-triviality
 	mutations, compares int
 }
@@ -440,6 +438,7 @@ func (rr *repRun) run() {
 	w := simrt.NewWorld(s.Seed, synctest.Wait)
 	defer w.Close()
 	rr.w = w
+	w.TraceOn = os.Getenv("VERIF_TRACE") != ""
 	rr.gate = make(chan struct{})
 	rr.lag = s.Cfg["lag"] != 0
 	replica.HoleCreatorChan = make(chan replica.Hole, 1<<16)
@@ -450,15 +449,6 @@ func (rr *repRun) run() {
 	w.HookFn = func(g *simrt.G, name string, args ...interface{}) {
 		if name == "AddPunchHoleTimeout" && rr.lag {
 			<-rr.gate
-		}
-		if name == "AddPunchHoleTimeout" && !rr.lag {
-			// see cluster.go: orders the puncher after the drain poller's first look; once per
-			// burst of entries (their number depends on the physical extent layout)
-			if now := w.Now(); now > rr.punchFree || !rr.punchSlept {
-				rr.punchSlept = true
-				rr.punchFree = now + time.Nanosecond
-				simrt.Sleep(time.Nanosecond)
-			}
 		}
 		if name == "AddPreloadTimeout" && atomic.AddInt32(&rr.openPause, -1) >= 0 {
 			simrt.Sleep(time.Second)
@@ -531,6 +521,7 @@ func (rr *repRun) run() {
 	rr.res.SimNanos = int64(w.Now())
 	rr.res.Steps = w.Steps
 	rr.res.Shape = hashStrings(rr.shape)
+	rr.res.TraceHash = hashTrace(w.Trace)
 	rr.res.Nontrivial = rr.mutations > 0 && rr.compares > 0
 	if len(w.Panics) > 0 && rr.res.V == nil {
 		rr.res.Infra = "panic in run: " + w.Panics[0]
